@@ -331,6 +331,10 @@ pub enum E {
     CountStar,
     /// `*`
     Star,
+    /// Postgres enum cast `expr.as_enum("etype")`; MySQL and SQLite render the inner expression as it is
+    AsEnum(Box<E>),
+    /// a condition group (any / all, negate); at the top level of WHERE / HAVING / ON it is built through `Cond`
+    Cond { any: bool, negate: bool, members: Vec<E> },
     /// reference to a select-item alias (stmt_spec::ITEM_ALIASES)
     AliasRef(u8),
     Int(i64),
@@ -398,6 +402,20 @@ impl E {
             }
             E::CountStar => Func::count(Expr::col(Asterisk)).into(),
             E::Star => Expr::col(Asterisk).into(),
+            E::AsEnum(e) => e.build(d).as_enum(a("etype")),
+            E::Cond { any, negate, members } => {
+                // inside an expression the same meaning is spelled with and / or / not
+                let mut it = members.iter().map(|m| m.build(d));
+                let folded = match it.next() {
+                    None => SimpleExpr::Constant(Value::Bool(Some(!*any))),
+                    Some(first) => it.fold(first, |acc, m| if *any { acc.or(m) } else { acc.and(m) }),
+                };
+                if *negate {
+                    folded.not()
+                } else {
+                    folded
+                }
+            }
             E::AliasRef(i) => Expr::col(a(crate::stmt_spec::ITEM_ALIASES[*i as usize % 4])).into(),
             E::V(v) => SimpleExpr::Value(v.value()),
             E::Int(i) => Expr::val(*i).into(),
@@ -504,6 +522,25 @@ impl E {
             E::Agg(f, e, distinct) => PT::Func(["COUNT", "SUM", "MAX", "MIN", "AVG"][(*f % 5) as usize].into(), vec![e.expect(d, params)], vec![*distinct && f % 5 == 0]),
             E::CountStar => PT::Func("COUNT".into(), vec![PT::Star(vec![])], vec![false]),
             E::Star => PT::Star(vec![]),
+            E::AsEnum(e) => {
+                if d == Dialect::Postgres {
+                    PT::Cast(b(e), "id<etype>".into())
+                } else {
+                    e.expect(d, params)
+                }
+            }
+            E::Cond { any, negate, members } => {
+                let mut it = members.iter().map(|m| m.expect(d, params));
+                let folded = match it.next() {
+                    None => PT::Kw(if *any { "FALSE" } else { "TRUE" }.into()),
+                    Some(first) => it.fold(first, |acc, m| PT::Bin(if *any { "OR" } else { "AND" }.into(), Box::new(acc), Box::new(m))),
+                };
+                if *negate {
+                    PT::Un("NOT".into(), Box::new(folded))
+                } else {
+                    folded
+                }
+            }
             E::AliasRef(i) => PT::Id(vec![crate::stmt_spec::ITEM_ALIASES[*i as usize % 4].into()]),
             E::V(_) => PT::Param(None),
             E::Int(_) | E::Text(_) | E::Bool(_) if params => PT::Param(None),
@@ -591,6 +628,17 @@ impl E {
             E::Agg(f, e, distinct) => format!("{}({}{})", ["count", "sum", "max", "min", "avg"][(*f % 5) as usize], if *distinct && f % 5 == 0 { "DISTINCT " } else { "" }, e.ref_sqlite()?),
             E::CountStar => "count(*)".into(),
             E::Star => "*".into(),
+            E::AsEnum(e) => e.ref_sqlite()?,
+            E::Cond { any, negate, members } => {
+                let parts: Option<Vec<String>> = members.iter().map(|m| m.ref_sqlite().map(|x| format!("({x})"))).collect();
+                let parts = parts?;
+                let body = if parts.is_empty() { if *any { "(1 = 2)".to_string() } else { "(1 = 1)".to_string() } } else { format!("({})", parts.join(if *any { " OR " } else { " AND " })) };
+                if *negate {
+                    format!("(NOT {body})")
+                } else {
+                    body
+                }
+            }
             E::AliasRef(i) => q(crate::stmt_spec::ITEM_ALIASES[*i as usize % 4]),
             E::V(_) => return None,
             E::Int(i) | E::Const(i) => format!("({i})"),
@@ -682,6 +730,8 @@ impl E {
             E::Not(e) => E::Not(Box::new(g(e))),
             E::Cast(e, t) => E::Cast(Box::new(g(e)), t.clone()),
             E::Agg(f, e, dd) => E::Agg(*f, Box::new(g(e)), *dd),
+            E::AsEnum(e) => E::AsEnum(Box::new(g(e))),
+            E::Cond { any, negate, members } => E::Cond { any: *any, negate: *negate, members: members.iter().map(|m| g(m)).collect() },
             E::Bin(l, op, r) => {
                 let l2 = g(l);
                 let r2 = g(r);
@@ -727,7 +777,8 @@ impl E {
 
     pub fn children(&self) -> Vec<&E> {
         match self {
-            E::Not(e) | E::Cast(e, _) | E::Agg(_, e, _) => vec![e],
+            E::Not(e) | E::Cast(e, _) | E::Agg(_, e, _) | E::AsEnum(e) => vec![e],
+            E::Cond { members, .. } => members.iter().collect(),
             E::Bin(l, _, r) => vec![l, r],
             E::Between { x, lo, hi, .. } => vec![x, lo, hi],
             E::LikePat { x, .. } | E::InSub { x, .. } => vec![x],
@@ -743,7 +794,7 @@ impl E {
 
     /// is this node an operator node (for the "operator under operator" non-triviality rule)
     pub fn is_operator(&self) -> bool {
-        matches!(self, E::Not(_) | E::Bin(..) | E::Between { .. } | E::LikePat { .. } | E::In { .. } | E::InSub { .. } | E::TupleCmp(..) | E::Quantified(..))
+        matches!(self, E::Not(_) | E::Bin(..) | E::Between { .. } | E::LikePat { .. } | E::In { .. } | E::InSub { .. } | E::TupleCmp(..) | E::Quantified(..) | E::AsEnum(_))
     }
 
     pub fn kind(&self) -> String {
@@ -756,6 +807,8 @@ impl E {
             E::InSub { .. } => "IN-SUB".into(),
             E::Func(..) | E::Agg(..) | E::CountStar => "func".into(),
             E::Cast(..) => "CAST".into(),
+            E::AsEnum(..) => "AS-ENUM".into(),
+            E::Cond { .. } => "cond-group".into(),
             E::Case(..) => "CASE".into(),
             E::TupleCmp(..) => "tuple-cmp".into(),
             E::Quantified(..) => "quantified".into(),
@@ -820,7 +873,7 @@ pub fn expr(d: Dialect, depth: u32, engine: bool) -> BoxedStrategy<E> {
             ),
             (
                 2,
-                (any::<bool>(), inner.clone(), prop_oneof![Just("a%".to_string()), Just("%|_%".to_string())], proptest::option::of(Just('|')))
+                (any::<bool>(), inner.clone(), prop_oneof![Just("a%".to_string()), Just("%|_%".to_string())], proptest::option::of(proptest::sample::select(vec!['|', '\\', '!'])))
                     .prop_map(|(not, x, pat, esc)| E::LikePat { not, x: Box::new(x), pat, esc })
                     .boxed(),
             ),
@@ -854,6 +907,7 @@ pub fn expr(d: Dialect, depth: u32, engine: bool) -> BoxedStrategy<E> {
                     .boxed(),
             ),
             (1, Just(E::Exists).boxed()),
+            (1, inner.clone().prop_map(|e| E::AsEnum(Box::new(e))).boxed()),
             (1, Just(E::CustomText).boxed()),
             (1, (atom(), atom()).prop_map(|(x, y)| E::CustomTmpl(Box::new(x), Box::new(y))).boxed()),
         ];
